@@ -1,7 +1,10 @@
 (* C06 — pinned property theorems about the manager model (coq/Mgr). Statements, `exact`,
    Print Assumptions only. *)
 From Coq Require Import List NArith Bool.
-From V.Mgr Require Import Model Caps.
+From V.gen Require CapsTables.
+From V.Mgr Require Import DialShape Model Caps CapsExt Limits LimitsProofs PeerTable PeerTableProofs.
+From V.Mgr Require Ledger LedgerInv CapsLedger.
+From V.C06 Require Tables TcpReject Compose08.
 Import ListNotations.
 Open Scope N_scope.
 
@@ -85,3 +88,434 @@ Example C06_nonvacuous :
   map fst (snd (grun L init [] es)) = [0; 1] /\
   snd (step L (fst (grun L init [] (removelast es))) (TrEstablished 2 2 TCP true false)) = [CallReject 2 TCP].
 Proof. vm_compute. repeat split; try discriminate; intros; try congruence; tauto. Qed.
+
+(* ======================================================================================== *)
+(* Extension round: the ConnectionLimits object, PeerState with its records, the complete     *)
+(* accept / reject decision, the gates, the composition with C08, the transports' reject.     *)
+(* ======================================================================================== *)
+
+(* ---------------- the ConnectionLimits object (coq/Mgr/Limits.v) ---------------- *)
+
+(* ConnectionLimitsConfig: `default()` is (None, None); each side ends up with the argument of the
+   last builder call made for it, whatever the order and number of calls *)
+Theorem C06_limits_builder :
+  forall ks, cfg_build ks = (last_set true ks None, last_set false ks None).
+Proof. exact cfg_build_last. Qed.
+Print Assumptions C06_limits_builder.
+
+(* The object alone, for every configuration and EVERY sequence of calls that follows the calling
+   discipline its documentation asks for (an accept right after a successful check of the same
+   direction; everything else in any order: checks whose result is ignored, closes of unknown ids,
+   repeated ids): both sets stay duplicate-free and within the maxima; an unlimited side is never
+   counted. *)
+Theorem C06_limits_object_invariant :
+  forall c ops, guarded (lim_new c) ops = true -> LimInv (lim_run (lim_new c) ops).
+Proof. intros c ops G. apply lim_inv_guarded; [apply lim_inv_new | exact G]. Qed.
+Print Assumptions C06_limits_object_invariant.
+
+Theorem C06_limits_object_invariant_step :
+  forall ops l, LimInv l -> guarded l ops = true -> LimInv (lim_run l ops).
+Proof. exact lim_inv_guarded. Qed.
+Print Assumptions C06_limits_object_invariant_step.
+
+(* the three checks change nothing (they take &mut self) *)
+Theorem C06_limits_checks_pure :
+  forall l o, match o with LDial | LIncoming | LCan _ => fst (lim_step l o) = l | _ => True end.
+Proof. exact lim_checks_pure. Qed.
+Print Assumptions C06_limits_checks_pure.
+
+(* on_dial_address: Ok(k) means k >= 1 free outbound slots, exactly max - counted; Ok(usize::MAX)
+   exactly without a maximum; the error exactly when the counted set has reached the maximum *)
+Theorem C06_limits_dial_capacity :
+  forall l,
+  match snd (lim_step l LDial) with
+  | LCap (Some k) => exists mx, lmax_out l = Some mx /\ 1 <= k /\ k + card (lout l) = mx
+  | LCap None => lmax_out l = None
+  | LErrOut => limit_reached (lmax_out l) (lout l) = true
+  | _ => False
+  end.
+Proof. exact lim_dial_cap. Qed.
+Print Assumptions C06_limits_dial_capacity.
+
+Theorem C06_limits_closed_exact :
+  forall l c d,
+  let l' := fst (lim_step l (LClosed c)) in
+  (In d (lin l') <-> In d (lin l) /\ d <> c) /\ (In d (lout l') <-> In d (lout l) /\ d <> c).
+Proof. exact lim_closed_exact. Qed.
+Print Assumptions C06_limits_closed_exact.
+
+(* accept_established_connection checks nothing itself: called without the check it exceeds the
+   maximum (observation about the object; the manager never does this, next theorems) *)
+Theorem C06_limits_unguarded_exceeds :
+  exists c ops, let l := lim_run (lim_new c) ops in lmax_in l = Some 1 /\ card (lin l) = 2.
+Proof.
+  exists (Some 1, None), [LAccept 1 true; LAccept 2 true].
+  destruct lim_unguarded_exceeds as [A B]. split; assumption.
+Qed.
+Print Assumptions C06_limits_unguarded_exceeds.
+
+(* The counted sets of the manager model change exactly as the calls `lim_ops` on the object say —
+   for every event, state and configuration; the call log (method, arguments, result, order) is
+   compared with the real manager's after every step. *)
+Theorem C06_manager_uses_limits_object :
+  forall L m e, lim_run (lim_of L m) (lim_ops L m e) = lim_of L (fst (step L m e)).
+Proof. exact lim_refines. Qed.
+Print Assumptions C06_manager_uses_limits_object.
+
+(* ... and the manager follows the calling discipline: it counts a connection only right after a
+   successful check for the same direction (in particular never before the per-peer decision) *)
+Theorem C06_manager_calls_guarded :
+  forall L m e, guarded (lim_of L m) (lim_ops L m e) = true.
+Proof. exact mgr_guarded. Qed.
+Print Assumptions C06_manager_calls_guarded.
+
+(* Litep2p::dial fails with ConnectionLimit exactly when on_dial_address fails, and then nothing changes *)
+Theorem C06_dial_refused_iff_object_refuses :
+  forall L m p ts fl,
+  (snd (lim_step (lim_of L m) LDial) = LErrOut <-> snd (do_dial_peer L m p ts fl) = [Ret RET_LIMIT]) /\
+  (snd (lim_step (lim_of L m) LDial) = LErrOut -> fst (do_dial_peer L m p ts fl) = m).
+Proof. exact lim_dial_decides. Qed.
+Print Assumptions C06_dial_refused_iff_object_refuses.
+
+(* on_pending_incoming_connection: a pending inbound socket is answered by accept_pending when
+   on_incoming is Ok and by reject_pending otherwise; nothing is reserved for it *)
+Theorem C06_pending_inbound_gate :
+  forall L m c t, installed L t = true ->
+  step L m (TrPendingInbound c t) =
+    (m, [if match snd (lim_step (lim_of L m) LIncoming) with LOk => true | _ => false end
+         then CallAcceptPending c t else CallRejectPending c t]).
+Proof. exact lim_incoming_decides. Qed.
+Print Assumptions C06_pending_inbound_gate.
+
+(* ---------------- PeerState with its records (coq/Mgr/PeerTable.v) ---------------- *)
+
+(* the whole transition table: from every shape of a state and every class of an event, the next
+   shape and the result are those of `table` (7 shapes x 8 methods, ids and addresses arbitrary) *)
+Theorem C06_peer_table :
+  forall s o, (shape_of (fst (pstep s o)), snd (pstep s o)) = table (shape_of s) (classify s o).
+Proof. exact table_correct. Qed.
+Print Assumptions C06_peer_table.
+
+(* a state never records more than two established connections *)
+Theorem C06_peer_slots_at_most_two : forall s, (length (slots s) <= 2)%nat.
+Proof. exact slots_le_two. Qed.
+Print Assumptions C06_peer_slots_at_most_two.
+
+(* an accepted connection is stored, with the record it came with, in the first free slot and
+   leaves the others untouched; a refused one changes no slot *)
+Theorem C06_peer_established_slots :
+  forall s n,
+  slots (fst (r_on_established s n)) = if snd (r_on_established s n) then slots s ++ [n] else slots s.
+Proof. exact slots_established. Qed.
+Print Assumptions C06_peer_established_slots.
+
+(* a closed connection leaves its slot (the secondary is promoted), nothing else changes *)
+Theorem C06_peer_closed_slots :
+  forall s c, slots (fst (r_on_closed s c)) = remove_first_rec c (slots s).
+Proof. exact slots_closed. Qed.
+Print Assumptions C06_peer_closed_slots.
+
+(* the other six methods never touch a slot *)
+Theorem C06_peer_other_methods_keep_slots :
+  forall s o, match o with PEstablished _ | PClosed _ => True | _ => slots (fst (pstep s o)) = slots s end.
+Proof. exact slots_other. Qed.
+Print Assumptions C06_peer_other_methods_keep_slots.
+
+(* refused exactly when both slots are taken, or one is taken and the other is reserved for a dial
+   in flight with a different id *)
+Theorem C06_peer_refused_iff :
+  forall s n,
+  snd (r_on_established s n) = false <->
+  (length (slots s) = 2%nat \/
+   (length (slots s) = 1%nat /\ exists d, dial_of s = Some d /\ fst d <> fst n)).
+Proof. exact established_refused_iff. Qed.
+Print Assumptions C06_peer_refused_iff.
+
+(* ConnectionClosed is to be reported exactly when the last recorded connection goes *)
+Theorem C06_peer_closed_reports_iff :
+  forall s c, snd (r_on_closed s c) = true <-> exists r, slots s = [r] /\ fst r = c.
+Proof. exact closed_reports_iff. Qed.
+Print Assumptions C06_peer_closed_reports_iff.
+
+(* the ids in the slots stay distinct as long as established connections carry fresh ids *)
+Theorem C06_peer_slot_ids_distinct :
+  forall s o, NoDup (slot_ids s) -> pop_fresh s o -> NoDup (slot_ids (fst (pstep s o))).
+Proof. exact slot_ids_nodup_step. Qed.
+Print Assumptions C06_peer_slot_ids_distinct.
+
+(* the remembered dial: consumed by the connection with its id, kept otherwise (also on refusal);
+   cleared by exactly the matching dial failure *)
+Theorem C06_peer_dial_record :
+  forall s,
+  (forall n, dial_of (fst (r_on_established s n)) =
+             match dial_of s with Some d => if fst d =? fst n then None else Some d | None => None end) /\
+  (forall c, dial_of (fst (r_on_dial_failure s c)) =
+             match dial_of s with Some d => if fst d =? c then None else Some d | None => None end /\
+             snd (r_on_dial_failure s c) = dial_matches s c).
+Proof. intros s. split; [intros n; apply dial_of_established | intros c; apply dial_of_dial_failure]. Qed.
+Print Assumptions C06_peer_dial_record.
+
+(* every record built by ConnectionRecord::new / from_endpoint names the peer and keeps the id *)
+Theorem C06_record_names_peer :
+  forall p a c, snd (snd (rec_new p a c)) = Some p /\ fst (rec_new p a c) = c.
+Proof. exact rec_new_names_peer. Qed.
+Print Assumptions C06_record_names_peer.
+
+(* the manager model's address-free state machine is this machine with the addresses erased: every
+   transition commutes with `erase` *)
+Theorem C06_peer_erase_refines :
+  forall s,
+  r_can_dial s = can_dial (erase s) /\
+  (forall c, erase (fst (r_on_dial_failure s c)) = st_on_dial_failure (erase s) c) /\
+  (forall n, (erase (fst (r_on_established s n)), snd (r_on_established s n)) = st_on_established (erase s) (fst n)) /\
+  (forall c, (erase (fst (r_on_closed s c)), snd (r_on_closed s c)) = st_on_closed (erase s) c) /\
+  (forall r, erase (fst (r_dial_single s r)) = match can_dial (erase s) with GateOk => Dialing (fst r) | _ => erase s end) /\
+  (forall c a ts, erase (fst (r_dial_addresses s c a ts)) = match can_dial (erase s) with GateOk => Opening c ts | _ => erase s end).
+Proof.
+  intros s. repeat split; intros.
+  - apply erase_can_dial. - apply erase_dial_failure. - apply erase_established. - apply erase_closed.
+  - apply erase_dial_single. - apply erase_dial_addresses.
+Qed.
+Print Assumptions C06_peer_erase_refines.
+
+Theorem C06_peer_erase_refines_opening :
+  forall a c ts t r,
+  erase (fst (r_on_open_failure (ROpening a c ts) t)) =
+    match remove_tr t ts with [] => Disconnected None | ts' => Opening c ts' end /\
+  erase (fst (r_on_opened (ROpening a c ts) r)) = Dialing (fst r).
+Proof. intros. split; [apply erase_open_failure | apply erase_opened]. Qed.
+Print Assumptions C06_peer_erase_refines_opening.
+
+(* ---------------- the complete decision of on_connection_established ---------------- *)
+
+(* the per-peer rule on the manager model's states *)
+Theorem C06_per_peer_rule :
+  forall s c,
+  snd (st_on_established s c) = false <->
+  (exists r d, s = Connected r (Some (SecEst d))) \/
+  (exists r d, s = Connected r (Some (SecDial d)) /\ d <> c).
+Proof. exact st_refused_iff. Qed.
+Print Assumptions C06_per_peer_rule.
+
+(* For a connection whose id was not dialled for another peer (the transports guarantee that) and a
+   peer whose opening attempt spans installed transports: accept(c) is called exactly when the
+   direction is below its maximum AND the per-peer rule admits it; reject(c) exactly otherwise. *)
+Theorem C06_established_decision :
+  forall L m p c t (lst f : bool),
+  (forall q, lookup c (pending m) = Some q -> q = p) ->
+  (forall d ts, state_of m p = Opening d ts -> forallb (installed L) ts = true) ->
+  let os := snd (do_established L m p c t lst f) in
+  let ok := snd (st_on_established (state_of m p) c) in
+  (In (CallAccept c t) os <-> dir_full L m lst = false /\ ok = true) /\
+  (In (CallReject c t) os <-> dir_full L m lst = true \/ ok = false).
+Proof. exact established_decision. Qed.
+Print Assumptions C06_established_decision.
+
+(* a rejected connection reserves nothing — whichever of the two rules rejected it (the seeded
+   change that reserved the slot before the per-peer decision violates this) *)
+Theorem C06_reject_reserves_nothing :
+  forall L m p c t (lst f : bool),
+  (forall q, lookup c (pending m) = Some q -> q = p) ->
+  (forall d ts, state_of m p = Opening d ts -> forallb (installed L) ts = true) ->
+  In (CallReject c t) (snd (do_established L m p c t lst f)) ->
+  ins (fst (do_established L m p c t lst f)) = ins m /\ outs (fst (do_established L m p c t lst f)) = outs m.
+Proof. exact reject_reserves_nothing. Qed.
+Print Assumptions C06_reject_reserves_nothing.
+
+(* The two side conditions hold in every state the manager reaches while the transports keep their
+   contract (C05's ledger invariant: `Reach`, `feas`), so there the decision needs no hypothesis
+   about the state. *)
+Theorem C06_decision_reachable :
+  forall L m g p c t (lst f : bool),
+  LedgerInv.Reach L m g -> LedgerInv.feas L m g (TrEstablished p c t lst f) ->
+  let os := snd (do_established L m p c t lst f) in
+  let ok := snd (st_on_established (state_of m p) c) in
+  (In (CallAccept c t) os <-> dir_full L m lst = false /\ ok = true) /\
+  (In (CallReject c t) os <-> dir_full L m lst = true \/ ok = false) /\
+  (In (CallReject c t) os ->
+   ins (fst (do_established L m p c t lst f)) = ins m /\ outs (fst (do_established L m p c t lst f)) = outs m).
+Proof. exact CapsLedger.decision_reachable. Qed.
+Print Assumptions C06_decision_reachable.
+
+(* every established connection is answered on its transport, by exactly one of accept / reject *)
+Theorem C06_established_answered_once :
+  forall L m g p c t (lst f : bool),
+  LedgerInv.Reach L m g -> LedgerInv.feas L m g (TrEstablished p c t lst f) ->
+  let os := snd (do_established L m p c t lst f) in
+  (In (CallAccept c t) os \/ In (CallReject c t) os) /\ ~ (In (CallAccept c t) os /\ In (CallReject c t) os).
+Proof. exact CapsLedger.answered_once_reachable. Qed.
+Print Assumptions C06_established_answered_once.
+
+(* below the maximum, a connection of a peer the node is not connected to is accepted whatever its
+   dial state (idle, dialing, opening, a remembered dial): generalises C06_below_limit_accepts *)
+Theorem C06_not_connected_accepted :
+  forall L m p c t (lst f : bool),
+  (forall q, lookup c (pending m) = Some q -> q = p) ->
+  (forall d ts, state_of m p = Opening d ts -> forallb (installed L) ts = true) ->
+  dir_full L m lst = false -> can_dial (state_of m p) <> GateConnected ->
+  In (CallAccept c t) (snd (do_established L m p c t lst f)).
+Proof. exact not_connected_accepted. Qed.
+Print Assumptions C06_not_connected_accepted.
+
+(* Every gate (pending inbound socket, established connection of either direction, dial request)
+   says "limit reached" exactly when the number of ESTABLISHED connections of that direction equals
+   the configured maximum: never while there is room, and the number is never larger. *)
+Theorem C06_refuses_iff_full :
+  forall L m l lst, CapInv L m l ->
+  (dir_full L m lst = true <->
+   exists mx, (if lst then max_in L else max_out L) = Some mx /\ N.of_nat (length (of_dir lst l)) = mx).
+Proof. exact full_iff. Qed.
+Print Assumptions C06_refuses_iff_full.
+
+(* capacity is released when a counted connection closes: its direction is below the maximum
+   afterwards (so the gates above let the next one in) *)
+Theorem C06_closed_frees_slot :
+  forall L m l p c q lst, CapInv L m l -> lookup c l = Some (q, lst) ->
+  dir_full L (fst (do_closed m p c)) lst = false.
+Proof. exact closed_frees_slot. Qed.
+Print Assumptions C06_closed_frees_slot.
+
+(* ... and only then: a close notice for anything that is not an established connection changes
+   neither set *)
+Theorem C06_uncounted_close_keeps :
+  forall L m l p c, CapInv L m l -> lookup c l = None ->
+  ins (fst (do_closed m p c)) = ins m /\ outs (fst (do_closed m p c)) = outs m.
+Proof. exact uncounted_close_keeps. Qed.
+Print Assumptions C06_uncounted_close_keeps.
+
+(* ---------------- composition: the manager provides what C08 assumes ---------------- *)
+
+(* C08's environment assumption splits into a connection part (ids fresh, fewer than two open
+   connections of the peer, closes refer to an open connection) and the rest *)
+Theorem C06_C08_feasible_split :
+  forall cap tr e s,
+  V.Ts.Model.feasible cap e s tr =
+  Compose08.feasible_rest e s tr && Compose08.conn_feasible cap e (filter Compose08.is_conn (map snd tr)).
+Proof. exact Compose08.feasible_split. Qed.
+Print Assumptions C06_C08_feasible_split.
+
+(* the invariant of the composed system (manager + what a protocol has been told) along every
+   history: the connections a protocol holds are established connections of the manager's ledger *)
+Theorem C06_composed_invariant :
+  forall L xs, Compose08.xtrace L Compose08.x0 xs -> Compose08.XInv L (Compose08.xrun L Compose08.x0 xs).
+Proof. intros L xs H. apply Compose08.xinv_run; [apply Compose08.xinv0 | exact H]. Qed.
+Print Assumptions C06_composed_invariant.
+
+(* a protocol never holds more than two connections of a peer *)
+Theorem C06_protocol_holds_at_most_two :
+  forall L s p, Compose08.XInv L s ->
+  (length (V.Ts.Model.live_of p (V.Ts.Model.e_live (Compose08.x_e s))) <= 2)%nat.
+Proof. exact Compose08.held_at_most_two. Qed.
+Print Assumptions C06_protocol_holds_at_most_two.
+
+(* the connection part of C08's assumption holds along every history of the composed system *)
+Theorem C06_provides_C08_connection_part :
+  forall L xs, Compose08.xtrace L Compose08.x0 xs ->
+  Compose08.conn_feasible 2 V.Ts.Model.env0 (Compose08.xproj xs) = true.
+Proof. intros L xs H. exact (Compose08.provides_conn_feasible L xs Compose08.x0 (Compose08.xinv0 L) H). Qed.
+Print Assumptions C06_provides_C08_connection_part.
+
+(* C08's hypothesis `feasible 2` discharged: a TransportService history whose connection events are
+   the reports of a composed manager history is feasible as soon as its other events are *)
+Theorem C06_provides_C08_feasible :
+  forall L xs tr ka T0 n0,
+  Compose08.xtrace L Compose08.x0 xs ->
+  filter Compose08.is_conn (map snd tr) = Compose08.xproj xs ->
+  Compose08.feasible_rest V.Ts.Model.env0 (V.Ts.Model.init ka T0 n0) tr = true ->
+  V.Ts.Model.feasible 2 V.Ts.Model.env0 (V.Ts.Model.init ka T0 n0) tr = true.
+Proof. exact Compose08.provides_feasible. Qed.
+Print Assumptions C06_provides_C08_feasible.
+
+(* so C08's conclusions hold for the composed system, e.g. strict alternation of the connection
+   events a protocol sees for a peer *)
+Theorem C06_C08_alternation_composed :
+  forall L xs tr ka T0 n0 q,
+  Compose08.xtrace L Compose08.x0 xs ->
+  filter Compose08.is_conn (map snd tr) = Compose08.xproj xs ->
+  Compose08.feasible_rest V.Ts.Model.env0 (V.Ts.Model.init ka T0 n0) tr = true ->
+  V.Ts.Proofs.alternates false (V.Ts.Proofs.conn_evs q (concat (V.Ts.Model.run (V.Ts.Model.init ka T0 n0) tr))).
+Proof. exact Compose08.composed_alternation. Qed.
+Print Assumptions C06_C08_alternation_composed.
+
+(* ---------------- what a transport does with a rejected connection ---------------- *)
+
+(* TcpTransport (model of coq/Tcp, tied to the real transport by C05's TCP stream): reject(c) drops
+   the entry — and the socket it owns —, emits no event, creates no future, touches nothing else *)
+Theorem C06_tcp_reject_forgets :
+  forall s c,
+  let s' := fst (V.Tcp.Model.step s (V.Tcp.Model.EReject c)) in
+  let os := snd (V.Tcp.Model.step s (V.Tcp.Model.EReject c)) in
+  os = [V.Tcp.Model.ORet (V.Tcp.Model.mem c (V.Tcp.Model.pending_open s))] /\ TcpReject.no_event os /\
+  ~ In c (V.Tcp.Model.pending_open s') /\
+  (forall d, d <> c -> (In d (V.Tcp.Model.pending_open s') <-> In d (V.Tcp.Model.pending_open s))) /\
+  V.Tcp.Model.pconn s' = V.Tcp.Model.pconn s /\ V.Tcp.Model.praw s' = V.Tcp.Model.praw s /\
+  V.Tcp.Model.opened s' = V.Tcp.Model.opened s /\
+  V.Tcp.Model.pending_inbound s' = V.Tcp.Model.pending_inbound s /\
+  V.Tcp.Model.pending_dials s' = V.Tcp.Model.pending_dials s /\ V.Tcp.Model.nfut s' = V.Tcp.Model.nfut s.
+Proof. exact TcpReject.tcp_reject_forgets. Qed.
+Print Assumptions C06_tcp_reject_forgets.
+
+Theorem C06_tcp_reject_pending_forgets :
+  forall s c,
+  let s' := fst (V.Tcp.Model.step s (V.Tcp.Model.ERejectPending c)) in
+  let os := snd (V.Tcp.Model.step s (V.Tcp.Model.ERejectPending c)) in
+  os = [V.Tcp.Model.ORet (V.Tcp.Model.mem c (V.Tcp.Model.pending_inbound s))] /\ TcpReject.no_event os /\
+  ~ In c (V.Tcp.Model.pending_inbound s') /\
+  V.Tcp.Model.pconn s' = V.Tcp.Model.pconn s /\ V.Tcp.Model.praw s' = V.Tcp.Model.praw s /\
+  V.Tcp.Model.pending_open s' = V.Tcp.Model.pending_open s /\ V.Tcp.Model.nfut s' = V.Tcp.Model.nfut s.
+Proof. exact TcpReject.tcp_reject_pending_forgets. Qed.
+Print Assumptions C06_tcp_reject_pending_forgets.
+
+(* on a reachable state nothing is left that could report about a rejected pending socket *)
+Theorem C06_tcp_rejected_pending_has_no_future :
+  forall s g c, V.Tcp.Theorems.reach s g -> In c (V.Tcp.Model.pending_inbound s) ->
+  forall f k, ~ In (f, (c, k)) (V.Tcp.Model.pconn (fst (V.Tcp.Model.step s (V.Tcp.Model.ERejectPending c)))).
+Proof. exact TcpReject.tcp_rejected_pending_has_no_future. Qed.
+Print Assumptions C06_tcp_rejected_pending_has_no_future.
+
+(* a negotiated connection is handed over (accept) or dropped (reject) exactly once *)
+Theorem C06_tcp_accept_or_reject_once :
+  forall s c e,
+  e = V.Tcp.Model.EAccept c \/ e = V.Tcp.Model.EReject c ->
+  snd (V.Tcp.Model.step s e) = [V.Tcp.Model.ORet true] ->
+  snd (V.Tcp.Model.step (fst (V.Tcp.Model.step s e)) (V.Tcp.Model.EAccept c)) = [V.Tcp.Model.ORet false] /\
+  snd (V.Tcp.Model.step (fst (V.Tcp.Model.step s e)) (V.Tcp.Model.EReject c)) = [V.Tcp.Model.ORet false].
+Proof. exact TcpReject.tcp_accept_or_reject_once. Qed.
+Print Assumptions C06_tcp_accept_or_reject_once.
+
+(* ---------------- tables read from the Rust source on every check ---------------- *)
+
+(* the methods of ConnectionLimits / its builder / PeerState / the variants of PeerState are exactly
+   the ones modelled *)
+Theorem C06_api_in_sync :
+  CapsTables.limits_api = [0; 1; 2; 3; 4] /\ CapsTables.limits_cfg_api = [0; 1] /\
+  CapsTables.peer_api = [0; 1; 2; 3; 4; 5; 6; 7] /\ CapsTables.peer_variants = [0; 1; 2; 3] /\
+  CapsTables.sec_variants = [0; 1].
+Proof. repeat split; reflexivity. Qed.
+Print Assumptions C06_api_in_sync.
+
+(* every call the model lets the manager make on ConnectionLimits is a call site of the source, in
+   the function that handles the event; every call site of the source is produced by some event *)
+Theorem C06_limits_call_sites :
+  (forall L m e o, In o (lim_ops L m e) -> In (Tables.op_site e o) CapsTables.limits_call_sites) /\
+  (forall s, In s CapsTables.limits_call_sites -> exists L m e o, In o (lim_ops L m e) /\ Tables.op_site e o = s).
+Proof. split; [exact Tables.model_calls_are_source_sites | exact Tables.source_sites_are_modelled]. Qed.
+Print Assumptions C06_limits_call_sites.
+
+(* in the source of on_connection_established the limit check precedes the per-peer decision and the
+   only accept_established_connection sits inside `if connection_accepted`; next() answers Err and
+   Reject by reject, Accept by accept, has two rollbacks, and answers a pending inbound socket by
+   accept_pending / reject_pending according to on_pending_incoming_connection *)
+Theorem C06_manager_source_shape :
+  CapsTables.est_order_ok = true /\ CapsTables.next_arms = [(0, 0); (1, 1); (2, 0)] /\
+  CapsTables.rollback_sites = 2 /\ CapsTables.pending_arms_ok = true.
+Proof. repeat split; reflexivity. Qed.
+Print Assumptions C06_manager_source_shape.
+
+(* tcp, websocket and quic: reject / reject_pending remove the entry (dropping the socket it owns)
+   and report Ok iff it existed, accept_pending / accept consume it, accept tells the protocols
+   before the connection task is spawned — the shape of the TCP model, for all three transports *)
+Theorem C06_transports_reject_shape :
+  forall t k, t < 3 -> k < 4 -> In (t, k, 1) CapsTables.transport_shapes.
+Proof. exact Tables.transports_uniform. Qed.
+Print Assumptions C06_transports_reject_shape.
